@@ -5,6 +5,7 @@ import LekkerVerif.Model.DriverWiring
 import LekkerVerif.Model.DriverSplit
 import LekkerVerif.Model.DriverPrune
 import LekkerVerif.Model.DriverNames
+import LekkerVerif.Core.Monitor
 /-! Driver ops.  Each op runs executable definitions of the model on the decoded request. -/
 open Lean
 
@@ -156,10 +157,40 @@ def opSolve (j : Json) : Json :=
           Json.arr (net.exposed.map fun e2 => gratToJson (total.sem e1.2 e2.2)).toArray
         Json.mkObj [("T", Json.arr rows.toArray), ("pins", toJson total.pins.length)]
 
+/-- op `monsolve`: the monitor path of `Solver.solve` (`Monitor.solveMonitored` with the pin-count heuristic) -/
+def opMonSolve (j : Json) : Json :=
+  match fromJson? (α := CaseJ) j with
+  | .error e => errJson ("parse: " ++ e)
+  | .ok c =>
+    match c.comps.toList.mapM mkComp with
+    | none => errJson "parse"
+    | some comps =>
+      let net : NetD GRat := { comps := comps
+                               links := c.links.toList.map fun l => ((l.a, l.p), (l.b, l.q))
+                               exposed := c.exposed.toList.map fun e => (e.name, (e.c, e.p)) }
+      let mon : List Nat := match j.getObjVal? "mon" with
+        | .ok (.arr xs) => xs.toList.filterMap fun x => (fromJson? (α := Nat) x).toOption
+        | _ => []
+      let exc : List (String × GRat) := match j.getObjVal? "exc" with
+        | .ok (.arr xs) => xs.toList.filterMap fun x => match x with
+          | .arr #[.str nm, z] => (parseGRat z).map fun v => (nm, v)
+          | _ => none
+        | _ => []
+      match Monitor.solveMonitored Solve.pySched net mon exc with
+      | .error e => errJson (errName e)
+      | .ok (total, r) =>
+        let rows := net.exposed.map fun e1 =>
+          Json.arr (net.exposed.map fun e2 => gratToJson (total.sem e1.2 e2.2)).toArray
+        Json.mkObj [("T", Json.arr rows.toArray),
+                    ("links", Json.arr (r.links.map fun l => Json.arr #[toJson l.1.1, Json.str l.1.2, toJson l.2.1, Json.str l.2.2]).toArray),
+                    ("inward", Json.arr (r.inward.map gratToJson).toArray),
+                    ("outward", Json.arr (r.outward.map gratToJson).toArray)]
+
 def dispatch (j : Json) : Json :=
   match getStr j "op" with
   | some "star" => opStar j
   | some "solve" => opSolve j
+  | some "monsolve" => opMonSolve j
   | some "stack" => opStack j
   | some "rename" => opRename j
   | some "compose" => opCompose j
